@@ -67,7 +67,7 @@ func (x *Exec) execInstr(fr *Frame, st *State, ins ssa.Instruction) {
 			fr.vals[t] = fmt.Sprintf("(pelem (sl_arr %s) (+ (sl_off %s) %s))", s, s, idx)
 		case *types.Pointer:
 			if la, ok := fr.laddr[t.X]; ok && la != nil {
-				x.unsupp("index into local array in %s", fr.fn.String())
+				x.unsupp("index into local array in %s", shortFn(fr.fn))
 				fr.vals[t] = x.vc.freshConst("laddr", "Ptr")
 				return
 			}
@@ -113,7 +113,7 @@ func (x *Exec) execInstr(fr *Frame, st *State, ins ssa.Instruction) {
 		ci := &closureInfo{fn: t.Fn.(*ssa.Function)}
 		for _, b := range t.Bindings {
 			if la, ok := fr.laddr[b]; ok && la != nil {
-				x.unsupp("closure captures non-heap local %s in %s", la.alloc.Comment, fr.fn.String())
+				x.unsupp("closure captures non-heap local %s in %s", la.alloc.Comment, shortFn(fr.fn))
 			}
 			ci.bindings = append(ci.bindings, x.val(fr, st, b))
 		}
@@ -186,7 +186,7 @@ func (x *Exec) execInstr(fr *Frame, st *State, ins ssa.Instruction) {
 		if v, ok := ins.(ssa.Value); ok {
 			fr.vals[v] = x.freshOfType(st, "unk", v.Type())
 		}
-		x.unsupp("instruction %T in %s", ins, fr.fn.String())
+		x.unsupp("instruction %T in %s", ins, shortFn(fr.fn))
 	}
 }
 
@@ -284,7 +284,7 @@ func (x *Exec) unop(fr *Frame, st *State, t *ssa.UnOp) string {
 		srt := x.vc.sortOf(t.Type())
 		v = x.vc.define("ld", srt, v)
 		if (x.overflowOn && srt == "Int") || srt == "Slice" {
-			x.wf(st, t.Type(), v, false)
+			x.wf(st, t.Type(), v, "load")
 		}
 		return v
 	case token.NOT:
@@ -342,6 +342,7 @@ func (x *Exec) binop(fr *Frame, st *State, t *ssa.BinOp) string {
 			return fmt.Sprintf("(>= %s %s)", a, b)
 		case token.SHL:
 			r = x.shl(st, a, b, t)
+			x.overflowCheck(fr, st, t, r)
 			return r
 		case token.SHR:
 			if c, ok := t.Y.(*ssa.Const); ok && c.Value != nil {
@@ -349,7 +350,12 @@ func (x *Exec) binop(fr *Frame, st *State, t *ssa.BinOp) string {
 					return x.vc.define("shr", "Int", fmt.Sprintf("(div %s %d)", a, int64(1)<<uint(k)))
 				}
 			}
-			return x.freshOfType(st, "shr", t.Type())
+			// symbolic count: r = floor(a / 2^b) for a >= 0, 0 <= b <= 63 (stated through products
+			// so that no division by a symbolic term is needed)
+			x.needPow2()
+			r := x.freshOfType(st, "shr", t.Type())
+			x.assume(st, fmt.Sprintf("(=> (and (>= %s 0) (<= 0 %s) (<= %s 63)) (and (<= (* %s (pow2 %s)) %s) (< %s (* (+ %s 1) (pow2 %s))) (>= %s 0)))", a, b, b, r, b, a, a, r, b, r))
+			return r
 		case token.AND, token.OR, token.XOR, token.AND_NOT:
 			f := x.vc.ufun("bitop_"+map[token.Token]string{token.AND: "and", token.OR: "or", token.XOR: "xor", token.AND_NOT: "andnot"}[t.Op], []string{"Int", "Int"}, "Int")
 			r := fmt.Sprintf("(%s %s %s)", f, a, b)
@@ -364,7 +370,7 @@ func (x *Exec) binop(fr *Frame, st *State, t *ssa.BinOp) string {
 	case "Str":
 		switch t.Op {
 		case token.ADD:
-			return x.vc.define("cat", "Str", fmt.Sprintf("(concat %s %s)", a, b))
+			return x.vc.define("cat", "Str", fmt.Sprintf("(str_cat %s %s)", a, b))
 		case token.LSS:
 			return fmt.Sprintf("(str_lt %s %s)", a, b)
 		case token.GTR:
@@ -405,7 +411,13 @@ func (x *Exec) shl(st *State, a, b string, t *ssa.BinOp) string {
 			return r
 		}
 	}
-	// symbolic shift count: x * 2^k with k case split 0..63; beyond 63 the machine result is 0
+	// symbolic shift count: x * 2^k for 0 <= k <= 63; beyond 63 the machine result is 0
+	x.needPow2()
+	r := x.vc.define("shl", "Int", fmt.Sprintf("(ite (and (<= 0 %s) (<= %s 63)) (* %s (pow2 %s)) 0)", b, b, a, b))
+	return r
+}
+
+func (x *Exec) needPow2() {
 	x.vc.ufun("pow2", []string{"Int"}, "Int")
 	if !x.vc.declared["pow2ax"] {
 		x.vc.declared["pow2ax"] = true
@@ -415,9 +427,9 @@ func (x *Exec) shl(st *State, a, b string, t *ssa.BinOp) string {
 			v *= 2
 		}
 		x.vc.assert("(= (pow2 63) 9223372036854775808)")
+		x.vc.assert("(forall ((k Int)) (! (=> (and (<= 0 k) (<= k 63)) (>= (pow2 k) 1)) :pattern ((pow2 k))))")
+		x.vc.assert("(forall ((k Int)) (! (=> (and (<= 1 k) (<= k 63)) (>= (pow2 k) 2)) :pattern ((pow2 k))))")
 	}
-	r := x.vc.define("shl", "Int", fmt.Sprintf("(ite (and (<= 0 %s) (<= %s 63)) (* %s (pow2 %s)) 0)", b, b, a, b))
-	return r
 }
 
 func (x *Exec) overflowCheck(fr *Frame, st *State, t *ssa.BinOp, r string) {
@@ -482,7 +494,7 @@ func (x *Exec) sliceOp(fr *Frame, st *State, t *ssa.Slice) string {
 			high = fmt.Sprintf("(strlen %s)", s)
 		}
 		x.assume(st, fmt.Sprintf("(and (<= 0 %s) (<= %s %s) (<= %s (strlen %s)))", low, low, high, high, s))
-		r := x.vc.define("substr", "Str", fmt.Sprintf("(substr %s %s %s)", s, low, high))
+		r := x.vc.define("substr", "Str", fmt.Sprintf("(str_sub %s %s %s)", s, low, high))
 		x.assume(st, fmt.Sprintf("(= (strlen %s) (- %s %s))", r, high, low))
 		return r
 	case *types.Pointer:
